@@ -396,7 +396,7 @@ def check_broadcast(target, opname, opargs, result, exc, op):
     M.bucket(f'C07/{opname}/{geom}/' + ('refused' if exc is not None else 'accepted'))
     if exc is not None:
         if fold_exc is None:
-            M.violate(['C07'], 'WELLWISE', f'C07:legal_plate_{opname}_refused:{type(exc).__name__}',
+            M.violate(['C07'] + (['C11', 'C03'] if opname == 'fill_to' else []), 'WELLWISE', f'C07:legal_plate_{opname}_refused:{type(exc).__name__}',
                       {'exc': repr(exc)[:300], 'target': F.describe(target)})
         return
     if fold_exc is not None:
@@ -422,7 +422,7 @@ def check_broadcast(target, opname, opargs, result, exc, op):
         else:
             M.count('LOCAL')
             if F.fp_container(w) != F.fp_container(got):
-                M.violate(['C07'] + (['C17'] if opname == 'remove' else []), 'WELLWISE',
+                M.violate(['C07'] + (['C17'] if opname == 'remove' else ['C11']), 'WELLWISE',
                           f'C07:unaddressed_well_changed:{opname}:{geom}',
                           {'well': ij, 'before': F.snap_contents(w), 'after': F.snap_contents(got), 'idx': idx[:16]})
                 break
